@@ -18,14 +18,14 @@ def showOut : Outcome → String
 def b01 (b : Bool) : String := if b then "1" else "0"
 
 def showMsg : Msg → String
-  | .introReq ns key p =>
-    s!"req{b01 ns} k={key} d={showAddr p.destination_address} l={showAddr p.source_lan_address} w={showAddr p.source_wan_address}"
-  | .introResp ns key p ins =>
-    s!"resp{b01 ns} k={key} d={showAddr p.destination_address} l={showAddr p.source_lan_address} w={showAddr p.source_wan_address} li={showAddr p.lan_introduction_address} wi={showAddr p.wan_introduction_address} ins={b01 ins}"
-  | .punctReq ns p => s!"preq{b01 ns} lw={showAddr p.lan_walker_address} ww={showAddr p.wan_walker_address}"
-  | .puncture ns key l w => s!"punc{b01 ns} k={key} l={showAddr l} w={showAddr w}"
+  | .introReq ns key id p =>
+    s!"req{b01 ns} k={key} id={id} d={showAddr p.destination_address} l={showAddr p.source_lan_address} w={showAddr p.source_wan_address}"
+  | .introResp ns key id p ins =>
+    s!"resp{b01 ns} k={key} id={id} d={showAddr p.destination_address} l={showAddr p.source_lan_address} w={showAddr p.source_wan_address} li={showAddr p.lan_introduction_address} wi={showAddr p.wan_introduction_address} ins={b01 ins}"
+  | .punctReq ns id p => s!"preq{b01 ns} id={id} lw={showAddr p.lan_walker_address} ww={showAddr p.wan_walker_address}"
+  | .puncture ns key id l w => s!"punc{b01 ns} k={key} id={id} l={showAddr l} w={showAddr w}"
 
-def showEv (e : Ev) : String := s!"{e.src}>{showAddr e.dst} {showMsg e.msg} ={showOut e.out}"
+def showEv (e : Ev) : String := s!"{e.src}/{e.svc}>{showAddr e.dst} {showMsg e.msg} ={showOut e.out}"
 
 def showTrace (evs : List Ev) : String :=
   if evs.isEmpty then "-" else " ; ".intercalate (evs.map showEv)
@@ -58,29 +58,41 @@ def step (w : World) (toks : List String) : World × String :=
       | some n => ({ w with nodes := w.nodes.set i { n with pref := l } }, "ok")
       | none => bad
     | _, _ => bad
-  | ["walk", i, ip, port] =>
-    match i.toNat?, ip.toNat?, port.toNat? with
-    | some i, some ip, some port => traced w (fun w => w.walk i ⟨ip, port⟩)
-    | _, _, _ => bad
-  | ["ask", i, k] =>
-    match i.toNat?, k.toNat? with
-    | some i, some k =>
-      match w.nodes[i]? >>= (fun n => n.askPeer k) with
-      | some _ => traced w (fun w => w.ask i k)
-      | none => (w, "nopeer")
+  | ["clock", i, c] =>
+    match i.toNat?, c.toNat? with
+    | some i, some c =>
+      match w.nodes[i]? with
+      | some n => ({ w with nodes := w.nodes.set i { n with clock := if c > n.clock then c else n.clock } }, "ok")
+      | none => bad
     | _, _ => bad
-  | ["peers", i] =>
-    match i.toNat? >>= (fun i => w.nodes[i]?) with
-    | some n => (w, Proto.showStrList (n.peers.map showPeer))
-    | none => bad
-  | ["walkable", i] =>
-    match i.toNat? >>= (fun i => w.nodes[i]?) with
-    | some n => (w, Proto.showStrList (n.walkable.map (fun a => s!"{showAddr a}/{b01 (n.isNewStyle a)}")))
-    | none => bad
-  | ["est", i] =>
-    match i.toNat? >>= (fun i => w.nodes[i]?) with
-    | some n => (w, s!"{showAddr n.myWan} {showAddr n.myLan}")
-    | none => bad
+  | ["walk", i, sv, ip, port] =>
+    match i.toNat?, sv.toNat?, ip.toNat?, port.toNat? with
+    | some i, some sv, some ip, some port =>
+      match w.nodes[i]? with
+      | some n =>
+        if ((n.walkTo ⟨ip, port⟩ sv).2).isSome then traced w (fun w => w.walk i ⟨ip, port⟩ sv)
+        else (w.walk i ⟨ip, port⟩ sv, "nosend")
+      | none => bad
+    | _, _, _, _ => bad
+  | ["ask", i, sv, k] =>
+    match i.toNat?, sv.toNat?, k.toNat? with
+    | some i, some sv, some k =>
+      match w.nodes[i]? >>= (fun n => n.askPeer k sv) with
+      | some r => if r.2.isSome then traced w (fun w => w.ask i k sv) else (w.ask i k sv, "nosend")
+      | none => (w, "nopeer")
+    | _, _, _ => bad
+  | ["peers", i, sv] =>
+    match i.toNat? >>= (fun i => w.nodes[i]?), sv.toNat? with
+    | some n, some sv => (w, Proto.showStrList ((n.getPeers sv).map showPeer))
+    | _, _ => bad
+  | ["walkable", i, sv] =>
+    match i.toNat? >>= (fun i => w.nodes[i]?), sv.toNat? with
+    | some n, some sv => (w, Proto.showStrList ((n.walkable sv).map (fun a => s!"{showAddr a}/{b01 (n.isNewStyle a)}")))
+    | _, _ => bad
+  | ["est", i, sv] =>
+    match i.toNat? >>= (fun i => w.nodes[i]?), sv.toNat? with
+    | some n, some sv => (w, s!"{showAddr (n.myWan sv)} {showAddr n.myLan} {n.clock}")
+    | _, _ => bad
   | ["sent", i] =>
     match i.toNat? >>= (fun i => w.hosts[i]?) with
     | some h => (w, Proto.showStrList (h.sent.map showAddr))
